@@ -76,7 +76,8 @@ pub fn unsupported() -> Value {
 /// The bytes of a case image: either a plain byte array or
 /// {"len": N, "fill": b, "patch": [[off, [bytes]], ...]}.
 pub fn case_bytes(case: &Value) -> Vec<u8> {
-    match &case["mem"] {
+    let m = if case["memx"].is_object() { &case["memx"] } else { &case["mem"] };
+    match m {
         Value::Array(a) => a.iter().map(|x| x.as_u64().unwrap() as u8).collect(),
         Value::Object(o) => {
             let len = o["len"].as_u64().unwrap() as usize;
@@ -84,8 +85,8 @@ pub fn case_bytes(case: &Value) -> Vec<u8> {
             let mut v = vec![fill; len];
             if let Some(p) = o.get("patch").and_then(|x| x.as_array()) {
                 for e in p {
-                    let off = e[0].as_u64().unwrap() as usize;
-                    for (i, b) in e[1].as_array().unwrap().iter().enumerate() {
+                    let off = e["off"].as_u64().unwrap() as usize;
+                    for (i, b) in e["b"].as_array().unwrap().iter().enumerate() {
                         if off + i < len {
                             v[off + i] = b.as_u64().unwrap() as u8;
                         }
